@@ -393,6 +393,11 @@ impl Property for C05 {
         let e: Expect = serde_json::from_value(scn.expect.clone()).expect("c05 expect");
         Box::new(SelMonitor::new(e))
     }
+    fn pinned(&self) -> Vec<super::Pinned> {
+        // a minimised replay (explicit decision list) of the stale-answer race, committed under /verif/pinned
+        let Ok(f) = serde_json::from_str::<super::ReplayFile>(include_str!("../../../pinned/C05_stale_await_answer.json")) else { return vec![] };
+        vec![super::Pinned { key: "C05/priority/stale-await-answer-of-earlier-select", what: "stale await answer of an earlier select opens a later select early", scenario: f.scenario, spec: f.spec }]
+    }
     fn judge(&self, _scn: &Scenario, _refdata: Option<&RefData>, _r: &RunResult) -> Vec<Violation> {
         Vec::new()
     }
@@ -431,6 +436,8 @@ pub struct SelMonitor {
     queries: BTreeMap<usize, Vec<u64>>,
     /// select index -> step of the turn in which the previous select completed (lower bound of its start)
     enter_step: BTreeMap<usize, u64>,
+    /// child index -> steps at which the subject's worker drained a "not finished yet" answer for it
+    none_answers: BTreeMap<usize, Vec<u64>>,
     inner: super::c04::MsgMonitor,
     probes: BTreeMap<String, u64>,
     select_pcs: Vec<usize>,
@@ -481,6 +488,7 @@ impl SelMonitor {
             finished: BTreeMap::new(),
             queries: BTreeMap::new(),
             enter_step: BTreeMap::new(),
+            none_answers: BTreeMap::new(),
             inner: super::c04::MsgMonitor::new_without_fifo("C05"),
             probes: BTreeMap::new(),
             select_pcs: Vec::new(),
@@ -616,10 +624,12 @@ impl Monitor for SelMonitor {
                 }
                 Some(Command::UpdateAwaitResults { awaiter, results }) if *awaiter == spid => {
                     for (t, r) in results {
-                        if r.is_some()
-                            && let Some(ci) = self.child_index(*t)
-                        {
-                            known.insert(ci, true);
+                        if let Some(ci) = self.child_index(*t) {
+                            if r.is_some() {
+                                known.insert(ci, true);
+                            } else {
+                                self.none_answers.entry(ci).or_default().push(world.steps);
+                            }
                         }
                     }
                 }
@@ -845,11 +855,18 @@ impl Monitor for SelMonitor {
                                     Some(q) => fstep < q,
                                     None => fstep < entered,
                                 };
+                                // a "not finished yet" answer for p received after this select was entered can
+                                // only belong to an EARLIER select's exchange (this select's own snapshot says
+                                // "finished"): the await protocol carries no exchange id, so the stale answer is
+                                // taken for the current one and opens the select early
+                                let stale_answer = self.none_answers.get(ci).is_some_and(|v| v.iter().any(|s| *s >= entered && *s <= tr.step));
                                 if known || in_snapshot {
                                     let cause = if failed {
                                         "failed-process-ignored"
                                     } else if known {
                                         "known-result-ignored"
+                                    } else if stale_answer {
+                                        "stale-await-answer-of-earlier-select"
                                     } else if query.is_none() || tr.exchange_incomplete {
                                         "eval-before-await-snapshot"
                                     } else {
